@@ -104,8 +104,6 @@ class TensorflowConnector(BuiltinConnector):
         if self._decorator_provided:
             self.decorator = self._decorator
 
-        self.sqrtm = tf.linalg.sqrtm
-
         self.range = tf.range
 
     def is_abstract(self, value: Any) -> bool:
@@ -265,18 +263,49 @@ class TensorflowConnector(BuiltinConnector):
     def powm(self, matrix, power):
         return self._funm(matrix, partial(self.np.power, x2=power))
 
+    def sqrtm(self, matrix):
+        tf = self._tf
+
+        @tf.custom_gradient
+        def sqrtm_with_gradient(matrix):
+            root = tf.linalg.sqrtm(matrix)
+
+            def gradient(upstream):
+                # NOTE: The gradient registered for `tf.linalg.sqrtm` is only correct
+                # for real matrices. The differential of `root @ root = matrix` gives
+                # that the gradient `X` is the solution of the Sylvester equation
+                # `root^\dagger @ X + X @ root^\dagger = upstream`, which is solved
+                # here in its vectorized form.
+                dim = root.shape[-1]
+                identity = tf.eye(dim, dtype=root.dtype)
+                root_adjoint = tf.linalg.adjoint(root)
+
+                sylvester_operator = self.np.kron(
+                    root_adjoint, identity
+                ) + self.np.kron(identity, tf.transpose(root_adjoint))
+
+                solution = tf.linalg.solve(
+                    sylvester_operator, tf.reshape(upstream, (-1, 1))
+                )
+
+                return tf.reshape(solution, (dim, dim))
+
+            return root, gradient
+
+        return sqrtm_with_gradient(tf.convert_to_tensor(matrix))
+
     def polar(self, matrix, side="right"):
         adjoint = self.np.conj(matrix).T
 
         if side == "right":
             # NOTE: `matrix = U @ P`, where `P` is the square root of
             # `matrix^\dagger @ matrix`.
-            P = self._tf.linalg.sqrtm(adjoint @ matrix)
+            P = self.sqrtm(adjoint @ matrix)
             U = matrix @ self._tf.linalg.inv(P)
         elif side == "left":
             # NOTE: `matrix = P @ U`, where `P` is the square root of
             # `matrix @ matrix^\dagger`.
-            P = self._tf.linalg.sqrtm(matrix @ adjoint)
+            P = self.sqrtm(matrix @ adjoint)
             U = self._tf.linalg.inv(P) @ matrix
 
         return U, P
